@@ -11,6 +11,16 @@ specification prescribes for the registry of *that* update.
 namespace Yomm2.Props.C09
 open Yomm2 Yomm2.Spec Yomm2.Heads Yomm2.GraphProofs Yomm2.Props.C01
 
+theorem forall₂_left_mem {α β} {R : α → β → Prop} {l₁ : List α} {l₂ : List β} (h : Forall₂ R l₁ l₂) :
+    ∀ a ∈ l₁, ∃ b, R a b := by
+  induction h with
+  | nil => intro a ha; cases ha
+  | cons hab _ ih =>
+    intro a ha
+    cases ha with
+    | head => exact ⟨_, hab⟩
+    | tail _ ha' => exact ih a ha'
+
 /-- under an indirect policy the constructor from a reference stores the address of the class's cell -/
 theorem mkVPtr_indirect_cell (s0 : PState) (hind : s0.cfg.indirect = true) (id : Nat) (v : VPtr)
     (h : s0.mkVPtr id = .ok v) : v.ref = .cell (s0.cfg.proj id) := by
@@ -70,5 +80,90 @@ theorem C09_kept_pointers_follow_updates (s s' : PState) (mults rest : List UInt
   rcases hmade with h | ⟨hck, h⟩
   · rw [mkVPtr_indirect_cell s0 hind0 id x.2 h, hcfg0, hcfg]
   · rw [mkFinal_indirect_cell s0 hind0 hck id x.2 h, hcfg0, hcfg]
+
+/-- what the constructor from a reference makes after an `update`, for an object of a registered class,
+    under any policy: a pointer that may be kept and passed to calls until the next update -/
+theorem mkVPtr_current (s s' : PState) (mults rest : List UInt64)
+    (hup : s.update mults = (s', .ok, rest))
+    (hwf : WF s.cfg.proj s.registry.classes s.registry.methods)
+    (hword : ∀ r ∈ s.registry.classes, r.id < 2 ^ 64 - 1)
+    (c : Compiled) (hc : s'.compiled = some c)
+    (hnomap : s.cfg.hash = .checked → ¬ s.cfg.vptrMap = true)
+    (id ci : Nat) (hid : id ∈ c.graph.ids ci) :
+    ∃ v, s'.mkVPtr id = .ok v ∧ StoredFor s' c v id := by
+  obtain ⟨_, _, _, _, _, _, _, _, hcfg⟩ := update_ok s s' mults rest hup
+  obtain ⟨_, hlook, hcell⟩ := registered_ids_published s s' mults rest hup hwf hword c hc id ci hid
+  have hfv := lookupForVptr_of_lookup _ _ _ _ hlook
+  unfold PState.mkVPtr
+  by_cases hst : (id == s'.staticId && s'.staticId != 0) = true
+  · rw [if_pos hst]
+    have hpass : s'.cfg.hash = .checked → ∃ i, checkedIdx s'.pub.hash s'.pub.control (UInt64.ofNat id) = some i := by
+      intro hck
+      have hl' := hlook
+      unfold lookupVptr at hl'
+      have hm : ¬ s'.cfg.vptrMap = true := by rw [hcfg] at hck ⊢; exact hnomap hck
+      simp only [hm, Bool.false_eq_true, if_false, hck] at hl'
+      cases hcx : checkedIdx s'.pub.hash s'.pub.control (UInt64.ofNat id) with
+      | some i => exact ⟨i, rfl⟩
+      | none => simp [hcx] at hl'
+    have hshape : ∀ (chk : Except CallErr Unit), chk = .ok () →
+        ∃ v, (match chk with
+          | .error e => (.error e : Except CallErr VPtr)
+          | .ok _ => if s'.cfg.indirect then .ok { obj := id, ref := .cell (s'.cfg.proj id) }
+              else .ok { obj := id, ref := .direct (s'.cellSlot (s'.cfg.proj id)) s'.epoch }) = .ok v ∧ StoredFor s' c v id := by
+      intro chk hchk
+      subst hchk
+      by_cases hind : s'.cfg.indirect = true
+      · simp only [hind, if_true]
+        exact ⟨_, rfl, Or.inl rfl⟩
+      · simp only [hind, Bool.false_eq_true, if_false]
+        refine ⟨_, rfl, Or.inr ⟨ci, hid, ?_⟩⟩
+        simp only [PState.cellSlot, hc, hcell]
+    apply hshape
+    by_cases hck : s'.cfg.hash = .checked
+    · obtain ⟨i, hi⟩ := hpass hck
+      simp only [hck, beq_self_eq_true, if_true, hi]
+    · have hck' : (s'.cfg.hash == HashKind.checked) = false := by simpa using hck
+      simp only [hck', Bool.false_eq_true, if_false]
+  · have hst' : (id == s'.staticId && s'.staticId != 0) = false := by simpa using hst
+    simp only [hst', Bool.false_eq_true, if_false, hfv]
+    by_cases hind : s'.cfg.indirect = true
+    · simp only [hind, if_true]
+      exact ⟨_, rfl, Or.inl rfl⟩
+    · simp only [hind, Bool.false_eq_true, if_false]
+      exact ⟨_, rfl, Or.inr ⟨ci, hid, rfl⟩⟩
+
+/-- **C09, pointers made since the latest update (every policy).** `virtual_ptr`s made after the update
+    by the constructor from a reference, kept (copied, stored) and passed to a call before the next
+    update: the call does what the specification prescribes — what the same call with plain references
+    does. -/
+theorem C09_kept_pointers_until_next_update (s s' : PState) (mults rest : List UInt64)
+    (hup : s.update mults = (s', .ok, rest))
+    (hwf : WF s.cfg.proj s.registry.classes s.registry.methods)
+    (hword : ∀ r ∈ s.registry.classes, r.id < 2 ^ 64 - 1)
+    (c : Compiled) (hc : s'.compiled = some c)
+    (key mi : Nat) (m : MethodC) (hfind : (List.zipIdx c.methods).find? (fun e => e.1.key == key) = some (m, mi))
+    (args : List (Kind × Nat)) (cs : List Nat)
+    (hnomap : s.cfg.hash = .checked → ¬ s.cfg.vptrMap = true)
+    (hreg : Forall₂ (fun (id ci : Nat) => id ∈ c.graph.ids ci) (virtIds args) cs)
+    (hacc : Forall₂ (fun cl v => cl ∈ c.graph.cov.get v) cs m.vp) (hpos : 0 < m.vp.length)
+    (pre : List (Nat × VPtr))
+    (hpre : ∀ x ∈ pre, ∀ id, ((Kind.vptr, id), x.1) ∈ List.zipIdx args → s'.mkVPtr id = .ok x.2) :
+    ∃ mr o, s.registry.methods[mi]? = some mr ∧
+      Selects s.cfg.proj s.registry mr.defs ((virtIds args).map s.cfg.proj) o ∧
+      s'.callWith key args .ref pre = expected m.vp.length args o := by
+  apply call_after_update_stored s s' mults rest hup hwf hword c hc key mi m hfind args cs hnomap hreg hacc hpos pre
+  intro x hx id hm
+  -- the argument at that position is one of the virtual ones: its class is registered
+  have hv : id ∈ virtIds args := by
+    have hmem : (Kind.vptr, id) ∈ args := by
+      have := List.mem_zipIdx_iff_getElem?.mp hm
+      exact List.mem_of_getElem? (by simpa using this)
+    exact List.mem_map.mpr ⟨(Kind.vptr, id), List.mem_filter.mpr ⟨hmem, rfl⟩, rfl⟩
+  obtain ⟨ci, hci⟩ := forall₂_left_mem hreg id hv
+  obtain ⟨v, hv', hst⟩ := mkVPtr_current s s' mults rest hup hwf hword c hc hnomap id ci hci
+  rw [hpre x hx id hm] at hv'
+  cases hv'
+  exact hst
 
 end Yomm2.Props.C09
